@@ -153,6 +153,9 @@ func (c *Conn) getRedo() [][]byte {
 	// so instead let's leverage a select. as soon as it blocks (due to chan close or no more input but not closed yet) we know we're
 	// done reading and move on. it's easy to prove in the implementer that we don't send any more data to In after calling this
 	defer c.clearRedo()
+	// wait until HandleData (and checkEOF) have returned. otherwise HandleData may still take
+	// data out of In and add it to keepSafe after we collected it, and that data would be lost.
+	c.wg.Wait()
 	for {
 		select {
 		case buf := <-c.In:
